@@ -29,7 +29,7 @@ def patches():
         out.append(('fixes/revert-' + c, f, FIX_TARGET[c], 'break'))
     for f in sorted(glob.glob(V + '/mutants/silent/*.diff')):
         n = os.path.basename(f)[:-5]
-        out.append(('silent/' + n, f, ['C' + n[1:3]], 'silent'))
+        out.append(('silent/' + n, f, ['C20'] if n.startswith('i64-') else ['C' + n[1:3]], 'silent'))
     for d in sorted(glob.glob(V + '/mutants/refactors/C*/')):
         n = os.path.basename(d.rstrip('/'))
         if n not in REFACTOR_SKIP:
